@@ -1867,6 +1867,9 @@ SPECS = [
          header="def pauseWriting (s : Srv.Flow.FSt) : Srv.Flow.FSt × Unit :=", state_type="Srv.Flow.FSt",
          fields={"_unsent": "unsent", "_write_paused": "paused", "_response_sent": "started"},
          types={"self._write_paused": "bool"}),
+    dict(name="bucketInit", file="server/middleware.py", cls="TokenBucket", func="__init__", state="s", numbers="Rat", implicit_return=True,
+         header="def bucketInit (s : BucketSt) (now capacity refill_rate : Rat) : BucketSt × Unit :=",
+         opaque={"time.monotonic()": "now", "float(capacity)": "capacity"}, types={"capacity": "num", "refill_rate": "num"}),
     dict(name="limiterRequest", file="server/middleware.py", cls="RateLimiter", func="process_request", thread="w", str="nat", numfmt="Mw.intDigits",
          header=("def limiterRequest (capacity refill_rate : Rat) (retry_after : Int) (now : Rat) (w : Mw.PyStore) (client_ip : Nat) :\n"
                  "    Mw.PyStore × (Bool × Option (List Nat)) :="),
@@ -2033,7 +2036,7 @@ PRELUDE = {
     "dataReceived": (["NauyacaVerif.Srv.PState"], []),
     "handleMwResult": (["NauyacaVerif.Srv.PState"], []), "sendMwRejection": (["NauyacaVerif.Srv.PState"], []), "handleHandlerResult": (["NauyacaVerif.Srv.PState"], []), "handleUploadResult": (["NauyacaVerif.Srv.PState"], []),
     "handleGeminiRequest": (["NauyacaVerif.Srv.PState"], []), "processTitanUpload": (["NauyacaVerif.Srv.PState"], []),
-    "evictable": (["NauyacaVerif.Gen.Fn.Consume"], []), "limiterRequest": (["NauyacaVerif.Mw.StorePy"], []),
+    "evictable": (["NauyacaVerif.Gen.Fn.Consume"], []), "bucketInit": (["NauyacaVerif.Gen.Fn.Consume"], []), "limiterRequest": (["NauyacaVerif.Mw.StorePy"], []),
     "staticHandle": (["NauyacaVerif.Fs.StaticPy"], []), "isSafePath": (["NauyacaVerif.Fs.StaticPy"], []),
     "pumpResponse": (["NauyacaVerif.Srv.FlowPy"], []), "resumeWriting": (["NauyacaVerif.Srv.FlowPy", "NauyacaVerif.Gen.Fn.PumpResponse"], []),
     "pauseWriting": (["NauyacaVerif.Srv.FlowPy"], []), "sendResponse": (["NauyacaVerif.Srv.FlowPy", "NauyacaVerif.Gen.Fn.PumpResponse"], []), "connectionLost": (["NauyacaVerif.Srv.FlowPy"], []),
